@@ -96,7 +96,8 @@ class CHECK(Check):
             "whose values are all None, free-text lines that match no identifier; registers are constructed with their data, or constructed empty / with other data, saved or inspected once and then edited in place (object history); the file is written to a StringIO, "
             "read back, compared element by element and with ==. The model decides whether the generated data are "
             "fitting and canonical (others are counted and skipped). non-trivial = at least two typed elements of "
-            "different types or a typed and a default element; distinct = hash")
+            "different types or a typed and a default element; distinct = hash"
+            " Later additions: class hierarchies, out-of-order field declarations, a last free-text line without newline, literal values with form feed / FS / NEL / U+2028.")
 
     def gen(self, tier, rng):
         n = 2500 if tier == "quick" else 60000
